@@ -19,7 +19,8 @@ DISPATCH = ["%s:%s" % (sec, b) for sec in ("UD", "ED") for b in BEHAVIOURS] + ["
 SECOND = ["UD:absent", "ED:absent", "UD:dict", "UD:raises", "ED:none"]
 BIG = ["%s:L%d" % (s, L) for s in ("UD", "ED", "XX") for L in (32759, 32760, 40001, 65527)]
 TEXT = ["t4", "w:0", "w:3", "w:7", "lead", "trail"]
-JSONS = ['{"a": 1}', '[1, "two", null]', '"just text"', "0", "false", "null", '{"k": {"n": [1, 2]}}', '""', "[]", "12.5"]
+JSONS = ['{"a": 1}', '[1, "two", null]', '"just text"', "0", "false", "null", '{"k": {"n": [1, 2]}}', '""', "[]", "12.5",
+         '{"temp": "45 \u00b0C", "name": "gr\u00fc\u00df"}'.encode().decode("unicode_escape")]
 LOSSLESS = ["%s:L%d:p%d" % (s, L, p) for s in ("UD", "ED", "XX", "CBOR", "BMC9") for (L, p) in ((1, 0), (5, 3), (16, 14), (17, 15), (20, 18))]
 
 HARNESSES = [
@@ -29,7 +30,7 @@ HARNESSES = [
     {"fn": "h_second", "cases": SECOND, "quick_cases": ["UD:absent", "UD:raises"], "timeout": {"quick": 90, "thorough": 300}},
     {"fn": "h_big", "cases": BIG, "quick_cases": ["XX:L32760", "UD:L65527"], "timeout": {"quick": 120, "thorough": 400}},
     {"fn": "h_text", "cases": TEXT, "quick_cases": ["w:3", "lead"], "timeout": {"quick": 120, "thorough": 600}},
-    {"fn": "h_json", "cases": ["j%d" % i for i in range(len(JSONS))], "quick_cases": ["j0", "j3", "j5", "j7"],
+    {"fn": "h_json", "cases": ["j%d" % i for i in range(len(JSONS))], "quick_cases": ["j0", "j3", "j5", "j7", "j10"],
      "timeout": {"quick": 90, "thorough": 300}},
     {"fn": "h_lossless", "cases": LOSSLESS, "quick_cases": ["UD:L17:p15", "XX:L5:p3", "CBOR:L16:p14", "ED:L1:p0"],
      "timeout": {"quick": 120, "thorough": 400}},
